@@ -154,6 +154,9 @@ def plant_spec(cfg):
     N = cfg['L'] * cfg['T']
     s = [(f'wellbores.ProducedTemperature[{i}]', 'real', 30, 500) for i in range(N)]
     s += [(f'wellbores.PumpingPower[{i}]', 'real', 0, 100) for i in range(N)]
+    # (the wellbore temperature gain / drop are inputs of the wellbore stage: the surface balance is stated on the reported Tprod and Tinj only,
+    # so they are symbolic here and must not move any reported flow)
+    s += [('wellbores.tempgaininj', 'real', 0, 50), ('wellbores.tempdropprod', 'real', 0, 50)]
     s += [('wellbores.Tinj', 'real', 0, 200), ('wellbores.prodwellflowrate', 'real', 1, 500), ('wellbores.nprod', 'real', 1, 200),
           ('reserv.cpwater', 'real', 3000, 6000), ('reserv.InitialReservoirHeatContent', 'real', 0, 1e6),
           ('surfaceplant.enduse_efficiency_factor', 'real', 0.1, 1), ('surfaceplant.utilization_factor', 'real', 0.1, 1)]
